@@ -9,6 +9,7 @@ import RelicVerif.Model.EpMul
 
 namespace Relic.Model.Ep2Mul
 open Relic.Model.MulAlg Relic.Model.EpMul Relic.Model.Rec
+open Relic.Model.EbMul (bucketAdd)
 
 variable {G : Type}
 
@@ -69,5 +70,17 @@ def mulGls (o : Ops G) (psi : G → G) (p : G) (tabLen : Nat) (s0 s1 s2 s3 : Boo
     let r := stepTab o id t1 r (n1.getD i 0)
     let r := stepTab o id t2 r (n2.getD i 0)
     stepTab o id t3 r (n3.getD i 0)) o.zero
+
+/-- ep2_mul_sim_lot for n > 10: signed width-w NAFs (w = max(2, bits(n) − 2), c = 2^(w−2) buckets per row) of the four sub-scalars of
+    every point; per position i from the top: every non-zero digit of sub-scalar m puts ±P_j into bucket |d|/2 of row m; the rows are
+    summed (`combineRow`: Σ (2j+1)·B[j]) and combined from row 3 down: t = ψ(t) + Σ row m; then s = 2s + t.
+    Executed by the driver; no theorem yet (the two-row form is `C03.mul_sim_lot_bucket_correct`). -/
+def simLotBucket4 (o : Ops G) (psi : G → G) (ps : List G) (nafs : List (List (List Int))) (c l : Nat) : G :=
+  (List.range l).reverse.foldl (fun s i =>
+    let rows : List (List G) := (ps.zip nafs).foldl (fun (b : List (List G)) (pn : G × List (List Int)) =>
+        b.zipIdx.map fun (rm : List G × Nat) => bucketAdd o rm.1 ((pn.2.getD rm.2 []).getD i 0) pn.1)
+      (List.replicate 4 (List.replicate c o.zero))
+    let t := rows.reverse.foldl (fun t row => o.add (psi t) (combineRow o row)) o.zero
+    o.add (o.dbl s) t) o.zero
 
 end Relic.Model.Ep2Mul
